@@ -196,6 +196,7 @@ def feasible_paths(cfg, start, ends, limit=3000, max_visits=1, ignore_exc=True):
         if len(out) >= limit:
             return
         node = cfg.nodes[n]
+        facts_in = facts
         if node.kind == "branch" and node.tag not in ("iter", "exhausted"):
             t = src(node.ast)
             if t in facts and facts[t] != node.value:
@@ -229,7 +230,8 @@ def feasible_paths(cfg, start, ends, limit=3000, max_visits=1, ignore_exc=True):
         path.append(n)
         count[n] = count.get(n, 0) + 1
         if n in ends and len(path) > 1:
-            out.append((list(path), dict(facts)))
+            # facts holding when the end node is *reached* (its own stores do not count)
+            out.append((list(path), dict(facts if node.kind == "branch" else facts_in)))
         else:
             for s in cfg.succs(n, ignore_exc):
                 if count.get(s, 0) < max_visits:
